@@ -185,6 +185,28 @@ def unit(job, variant, pi, seed, n_edits, chain_len, want_model):
         if d is not None:
             out["failing"].append({"kind": "hint-differs", "job": job, "edit": label, "previous_plan": base,
                                    "first_difference": d})
+    # the same body under an environment that differs in ONE setting (also the ones the engine itself does not read:
+    # armour, mob level, force advantage enter the damage figures of the answers only)
+    env0 = yaml.safe_load(header(job, variant))
+    one_field = {"armor": 380, "mob_level": 280, "force_advantage": 1.5, "level": 265, "weapon_attack_power": 100,
+                 "combat_orders_level": 2 - env0["environment"].get("combat_orders_level", 1), "use_doping": False,
+                 "v_improvements_level": 40, "passive_skill_level": 1}
+    for field in rng.sample(sorted(one_field), 3) + (["armor"] if pi == 0 else []):
+        env1 = json.loads(json.dumps(env0))
+        env1["environment"][field] = one_field[field]
+        body = base if rng.random() < 0.5 else base[: rng.randint(3, len(base))] + ["ELAPSE 10.0"]
+        new_text = "---\n" + yaml.safe_dump(env1, indent=2, allow_unicode=True) + "\n---\n" + "\n".join(body)
+        label = "one-environment-field"
+        out["pairs"] += 1
+        out["labels"][label] = out["labels"].get(label, 0) + 1
+        full = outcome(lambda: run_plan(new_text))
+        for mode, h in (("memory", hist), ("json", via_json(hist))):
+            d = first_diff(outcome(lambda: run_plan_with_hint(prev_text, h, new_text)), full)
+            if d is not None:
+                out["failing"].append({"kind": "hint-differs", "job": job, "variant": variant, "hint": mode,
+                                       "edit": f"{label}: {field} -> {one_field[field]}", "previous_plan": base,
+                                       "new_plan": body, "first_difference": d})
+                break
     # chains: each step's hint is the previous step's incremental output
     cur_lines, cur_text, cur_hist = base, prev_text, hist
     chain_plans = [base]
